@@ -6,18 +6,43 @@
    Status of the three clauses on the code as it is in /repo:
      well-formed and   proved for every accepted document, at full strength (C18_wf);
      self-contained
-     reads faithfully  C18_sound_full is the statement.  Proved: the instance clauses (one instance per
-                       statement, in order, with the named definition, kind, .cname/.attr/.param/truth
-                       table; every named definition exists) for every supported document
-                       (C18_sound_instances).  Not proved: the connectivity clause (ds_nets), the
-                       library and direction clauses - they are checked by the correspondence run and the
-                       design oracle only.  Outside the supported subset the statement is refuted
-                       (C18_sound_refuted_*: statement lines the reader silently skips);
-     write-then-read   C18_full is the statement; REFUTED (C18_roundtrip_refuted: the written file
-                       of a supported document is rejected on re-reading). *)
+     reads faithfully  C18_sound_full is the statement, PROVED for every supported document
+                       (C18_sound_full_holds): per declared model the instances (one per statement, in
+                       order, definition, kind, .cname/.attr/.param/truth table), the connectivity (two
+                       pins share a wire exactly when the file attaches them to the same net bit or to
+                       two net bits joined by a .conn; bus bits x[3], unconn, constants as plain names -
+                       exactly as the reader treats them), the library, the port directions; undeclared
+                       definitions are leaf primitives.  Outside the supported subset the statement is
+                       refuted (C18_sound_refuted_*: statement lines the reader silently skips; a .conn
+                       operand that spells the cable name a_i_b_j an earlier .conn created);
+     write-then-read   C18_full is the statement; REFUTED at full generality (C18_roundtrip_refuted: the
+                       written file of a supported document is rejected on re-reading).
+                       [roundtrippable] (BlifSpec) is the decidable side condition excluding the classes
+                       of netlist on which it fails, each with its witness (theorems C18_roundtrip_excluded_...):
+                       default names of the re-read colliding with written .cname, .conn moving a
+                       top-level pin off the net named like its port, a primitive top model; definitions
+                       instantiating themselves are excluded too (the composer does not terminate).
+                       On that fragment the statement is C18_roundtrip_on_fragment: NOT proved in
+                       general.  Proved: the boolean comparison decides the equivalence of the property
+                       plus equality of the declared ports, so rt_check n = true certifies the round
+                       trip of the netlist n (C18_roundtrip_checked); the correspondence run evaluates
+                       roundtrippable and rt_check on every generated document and fails when a
+                       roundtrippable netlist does not pass rt_check or does not round-trip through the
+                       real composer and reader.  Example: a hierarchical document (C18_roundtrip_hier).
+                       Proved in general, clause by clause: the reader and the grammar segment the
+                       written file of a roundtrippable netlist into exactly the statements the writer
+                       put there (C18_written_file_segmented); in every netlist the reader returns an
+                       instance with a .cname is called by it (C18_cname_is_name); the INSTANCES clause
+                       of the round trip (C18_roundtrip_instances): if the written file is a supported
+                       document and is accepted, every written model comes back with the same instances
+                       by name (kind, definition, .attr/.param, truth table, old .cname kept).
+                       Missing for C18_roundtrip_on_fragment: acceptance of the written file (no
+                       handler raises), supportedness of the written file (holds on every
+                       roundtrippable netlist of the runs), the nets and ports clauses in general. *)
 From Coq Require Import List Permutation.
 From SV Require Import Base.Base Fmt.Blif Fmt.BlifRead Fmt.BlifWrite Fmt.BlifSpec
-  Proofs.BlifWF Proofs.BlifExec Proofs.BlifSound Proofs.BlifC18.
+  Proofs.BlifWF Proofs.BlifExec Proofs.BlifSound Proofs.BlifC18 Proofs.BlifNetsFull Proofs.BlifRound Proofs.BlifRoundEx
+  Proofs.BlifRoundSeg Proofs.BlifRoundCn Proofs.BlifRoundInst.
 
 (* ---- well-formedness and self-containedness ---- *)
 (* every accepted document, no restriction: model names distinct; every pin on a wire names a declared
@@ -58,6 +83,32 @@ Theorem C18_sound_instances : forall d n,
 Proof. exact sound_insts. Qed.
 Print Assumptions C18_sound_instances.
 
+(* all clauses: instances, connectivity, library, port directions, undeclared definitions *)
+Theorem C18_sound_full_holds : C18_sound_full.
+Proof. exact sound_full. Qed.
+Print Assumptions C18_sound_full_holds.
+
+(* the connectivity clause spelled out: in a declared model without .blackbox, two pin designators are
+   on one wire of the netlist iff the statements of the section attach them to the same net bit, or
+   to two net bits named together by a .conn *)
+Theorem C18_sound_nets : forall d n,
+  supported d = true -> elab d = Ok n ->
+  exists ss, grammar d = Some ss /\
+    forall nm m, In nm (model_names ss) -> has_blackbox (body_of nm nil ss) = false ->
+      find_model nm (b_models n) = Some m ->
+      forall a b, same_wire m a b <->
+        exists x y, In (a, x) (spec_attach 0 nil (body_of nm nil ss)) /\
+                    In (b, y) (spec_attach 0 nil (body_of nm nil ss)) /\
+                    same_bit (spec_conns (body_of nm nil ss)) x y.
+Proof. exact sound_nets. Qed.
+Print Assumptions C18_sound_nets.
+
+(* the hypotheses hold for a hierarchical document with a declared sub-model, a declared black box,
+   buses, unconn, .names, .latch, instance data and a .conn *)
+Example C18_sound_full_example : supported doc_hier = true /\ exists n, elab doc_hier = Ok n /\ denote doc_hier n.
+Proof. exact sound_full_example. Qed.
+Print Assumptions C18_sound_full_example.
+
 (* the supported subset is inhabited by the example documents *)
 Example C18_supported_example : supported doc_flat = true /\ supported doc_blackbox = true.
 Proof. exact (conj doc_flat_supported doc_blackbox_supported). Qed.
@@ -73,6 +124,11 @@ Theorem C18_sound_refuted_header_gap : exists d n, supported d = false /\ elab d
 Proof. exact sound_refuted_header_gap. Qed.
 Print Assumptions C18_sound_refuted_header_gap.
 
+(* a .conn operand spelling the cable name an earlier .conn gave the merged net captures that net *)
+Theorem C18_sound_refuted_conn_capture : exists d n, supported d = false /\ elab d = Ok n /\ ~ denote d n.
+Proof. exact sound_refuted_conn_capture. Qed.
+Print Assumptions C18_sound_refuted_conn_capture.
+
 (* ---- write-then-read ---- *)
 Definition C18_full : Prop := C18_roundtrip_statement.
 (* = forall d n, elab d = Ok n -> exists n', elab (emit n) = Ok n' /\ equiv n n' *)
@@ -81,15 +137,95 @@ Theorem C18_roundtrip_refuted : ~ C18_full.
 Proof. exact roundtrip_refuted. Qed.
 Print Assumptions C18_roundtrip_refuted.
 
-(* on the example document the written file re-reads, with the same instances (name, definition, kind,
-   data sizes) both ways and as many connected pins: the clause is satisfiable by a non-trivial input.
-   No general write-then-read theorem is proved (it would need the writer's output to be characterised
-   for every netlist in the image of the reader, and it is false without excluding the three classes of
-   input listed in the engine report). *)
-Example C18_roundtrip_example :
-  exists n n' m m', elab doc_flat = Ok n /\ elab (emit n) = Ok n' /\
-    find_model nm_top (b_models n) = Some m /\ find_model nm_top (b_models n') = Some m' /\
-    insts_covered_b m m' = true /\ insts_covered_b m' m = true /\
-    length (cable_pins (m_cables m)) = length (cable_pins (m_cables m')).
-Proof. exact roundtrip_example. Qed.
-Print Assumptions C18_roundtrip_example.
+(* ---- write-then-read on the fragment ---- *)
+(* the statement on the fragment (not proved in general; checked case by case, see below) *)
+Definition C18_roundtrip_fragment : Prop := C18_roundtrip_on_fragment.
+(* = forall d n, elab d = Ok n -> roundtrippable n = true ->
+       exists n', elab (emit n) = Ok n' /\ equiv n n' /\ equiv_ports n n' /\ equiv_pins n n' *)
+
+(* the verified checker: when the boolean comparison of a netlist with the re-read of its written file
+   succeeds, the written file is accepted and gives a netlist with the same instances by name (kind,
+   definition, .attr/.param, truth table, .cname), the same nets as sets of named pins, and the same
+   declared ports, for the top model and every non-primitive model below it *)
+Theorem C18_roundtrip_checked : forall n,
+  rt_check n = true -> exists n', elab (emit n) = Ok n' /\ equiv n n' /\ equiv_ports n n' /\ equiv_pins n n'.
+Proof. exact rt_check_sound. Qed.
+Print Assumptions C18_roundtrip_checked.
+
+(* the re-read netlist is exactly what the written file says, whenever the written file is a supported
+   document (on every roundtrippable netlist of the correspondence runs it is) *)
+Theorem C18_reread_faithful : forall n n',
+  supported (emit n) = true -> elab (emit n) = Ok n' -> denote (emit n) n'.
+Proof. exact reread_faithful. Qed.
+Print Assumptions C18_reread_faithful.
+
+Theorem C18_equiv_decided : forall n n', equiv_b n n' = true -> equiv n n' /\ equiv_ports n n' /\ equiv_pins n n'.
+Proof. exact equiv_b_sound. Qed.
+Print Assumptions C18_equiv_decided.
+
+(* the fragment statement holds on a hierarchical document: declared sub-model with its own .names,
+   declared black box with a bus port, unconn, .latch, .cname/.attr/.param, a .conn between inner nets *)
+Example C18_roundtrip_hier :
+  exists n n', elab doc_hier = Ok n /\ roundtrippable n = true /\ elab (emit n) = Ok n' /\ equiv n n' /\ equiv_ports n n' /\
+    equiv_pins n n' /\ length (b_models n) = 5 /\ length (emit n) = 37.
+Proof. exact roundtrip_hier. Qed.
+Print Assumptions C18_roundtrip_hier.
+
+Example C18_roundtrip_flat :
+  exists n n', elab doc_flat = Ok n /\ roundtrippable n = true /\ elab (emit n) = Ok n' /\ equiv n n' /\ equiv_ports n n' /\ equiv_pins n n'.
+Proof. exact roundtrip_flat. Qed.
+Print Assumptions C18_roundtrip_flat.
+
+(* what the side condition excludes, each class with a netlist on which C18_full fails *)
+Theorem C18_roundtrip_excluded_default_names :
+  exists n, elab doc_default_names = Ok n /\ roundtrippable n = false /\ ~ exists n', elab (emit n) = Ok n'.
+Proof. exact rt_excluded_default_names. Qed.
+Print Assumptions C18_roundtrip_excluded_default_names.
+
+Theorem C18_roundtrip_excluded_conn_bus :
+  exists n, elab doc_conn_bus = Ok n /\ roundtrippable n = false /\ ~ exists n', elab (emit n) = Ok n'.
+Proof. exact rt_excluded_conn_bus. Qed.
+Print Assumptions C18_roundtrip_excluded_conn_bus.
+
+Theorem C18_roundtrip_excluded_conn_port_net :
+  exists n n', elab doc_conn_port_net = Ok n /\ roundtrippable n = false /\ elab (emit n) = Ok n' /\ ~ equiv n n'.
+Proof. exact rt_excluded_conn_port_net. Qed.
+Print Assumptions C18_roundtrip_excluded_conn_port_net.
+
+Theorem C18_roundtrip_excluded_top_primitive :
+  exists n n', elab doc_top_primitive = Ok n /\ roundtrippable n = false /\ elab (emit n) = Ok n' /\ ~ equiv n n'.
+Proof. exact rt_excluded_top_primitive. Qed.
+Print Assumptions C18_roundtrip_excluded_top_primitive.
+
+(* ---- write-then-read, proved in general clause by clause ---- *)
+(* the reader's own segmentation and the grammar agree on the written file, and both give the
+   statements the writer emitted: no line of a written file is skipped, split or read in another mode *)
+Theorem C18_written_file_segmented : forall n,
+  roundtrippable n = true -> classify (emit n) = Ok (stmts_of n) /\ grammar (emit n) = Some (stmts_of n).
+Proof. exact written_file_segmented. Qed.
+Print Assumptions C18_written_file_segmented.
+
+(* in every netlist the reader returns, an instance carrying a .cname is called by it *)
+Theorem C18_cname_is_name : forall d n m i c,
+  elab d = Ok n -> In m (b_models n) -> In i (m_insts m) -> i_cname i = Some c -> i_name i = Some c.
+Proof. intros d n m i c H Hm Hi. exact (elab_CN d n H m Hm i Hi c). Qed.
+Print Assumptions C18_cname_is_name.
+
+(* the instances clause: for a roundtrippable netlist the reader returned, whose written file is a
+   supported document and is accepted, every model the writer wrote exists after re-reading and has the
+   same instances by name - kind, definition, .attr, .param, truth table, and the .cname it had *)
+Theorem C18_roundtrip_instances : forall d n n',
+  elab d = Ok n -> roundtrippable n = true -> supported (emit n) = true -> elab (emit n) = Ok n' ->
+  forall nm, In nm (written_names n) ->
+    exists m', find_model nm (b_models n') = Some m' /\
+      (forall x i, inst_named (get_model nm (b_models n)) x i -> exists j, inst_named m' x j /\ same_data i j) /\
+      (forall x j, inst_named m' x j -> exists i, inst_named (get_model nm (b_models n)) x i /\ same_data i j).
+Proof. exact rt_instances_fragment. Qed.
+Print Assumptions C18_roundtrip_instances.
+
+(* its hypotheses hold for the hierarchical example *)
+Example C18_roundtrip_instances_example :
+  exists n n', elab doc_hier = Ok n /\ roundtrippable n = true /\ supported (emit n) = true /\ elab (emit n) = Ok n' /\
+    length (written_names n) = 2.
+Proof. exact rt_instances_example. Qed.
+Print Assumptions C18_roundtrip_instances_example.
